@@ -90,6 +90,7 @@ func TestCheck(t *testing.T) {
 	outcomes := map[string]int{}
 	sigCount := map[string]int{}
 	sigExample := map[string]string{}
+	baseRejected := map[string]string{}
 	tot := sarama.VerifUnitResult{}
 	nsamples := 0
 	pool := &Pool{Mode: "c09", Deadline: start.Add(ev.Deadline(45*time.Second, 540*time.Second)), Watchdog: 120 * time.Second,
@@ -125,6 +126,9 @@ func TestCheck(t *testing.T) {
 			if k == "engine-error" && n > 0 {
 				c.EngineError("unit " + unit + " reported an engine error")
 			}
+		}
+		if r.BaseReject != "" {
+			baseRejected[unit] = r.BaseReject
 		}
 		for _, v := range r.Violations {
 			sigCount[v.Signature]++
@@ -165,6 +169,22 @@ func TestCheck(t *testing.T) {
 	c.Set("o4_wire_facts", tot.WireFacts)
 	c.Set("outcomes", outcomes)
 	c.Set("per_family", perFam)
+	// a base value the encoder refuses makes a whole (family, version) vacuous: tolerated only for the topmost version
+	// (a `version > N` guard that rejects N+1), otherwise the generator is wrong
+	famMax := map[string]int{}
+	for _, f := range fams {
+		famMax[f.Name] = f.MaxVersion
+	}
+	for u, why := range baseRejected {
+		p := strings.Split(u, "|")
+		var v int
+		fmt.Sscanf(p[1], "v%d", &v)
+		if v < famMax[p[0]] {
+			c.EngineError("base value of " + u + " is rejected by sarama's encoder (" + why + "): the generator builds an illegal base")
+		}
+	}
+	c.Set("versions_rejected_entirely", baseRejected)
+	c.Set("domain_rules", sarama.VerifC09DomainRules())
 	c.Set("violations_by_signature", sigCount)
 	c.Set("violation_example_case", sigExample)
 	vers := 0
